@@ -150,8 +150,10 @@ class _Scn(object):
                 meta['all_positive'] = True
         else:
             params = {'itr': rnd.choice((0, 1, 2, 5))}
-        if meta['wkind'] in ('int', 'unit') and rnd.random() < 0.2:
-            W = W.astype(rnd.choice((np.int64, np.int32)))  # signed integer container
+        if meta['wkind'] == 'bigint' and rnd.random() < 0.6:
+            W = W.astype(rnd.choice((np.int16, np.int32)))  # large counts in a narrow signed integer container
+        elif meta['wkind'] in ('int', 'unit') and rnd.random() < 0.2:
+            W = W.astype(rnd.choice((np.int64, np.int32, np.int8)))  # signed integer container
         elif rnd.random() < 0.06:
             W = W.astype(np.float32)
         case = {'scn': self.ID, 'routine': routine, 'W': enc(W), 'params': params, 'seed': sub, 'policy': rewire.pick_policy(rnd),
